@@ -28,11 +28,11 @@ type RX struct {
 // Alphabets.
 var (
 	// AlphaBasic are characters that appear in literals and classes.
-	AlphaBasic = []rune("abcxyzks01_ -+()[].*$^|\\\"'/<>{}\n\t\u00e9\u4e16")
+	AlphaBasic = []rune("abcxyzks01_ -+()[].*$^|\\\"'/<>{}\n\t\u00e9\u4e16\x01\a\x7f\U0001F600")
 	// AlphaPlain excludes regex metacharacters.
 	AlphaPlain = []rune("abcxyzks01_ ")
 	// AlphaInput additionally holds characters no rule mentions, fold partners and CR.
-	AlphaInput = []rune("abcxyzksABCKS012_ -+()[].*$^|\\\"'/<>{}\n\t\r\u00e9\u4e16\u017f\u212aq;")
+	AlphaInput = []rune("abcxyzksABCKS012_ -+()[].*$^|\\\"'/<>{}\n\t\r\u00e9\u4e16\u017f\u212aq;\x01\a\x7f\U0001F600")
 )
 
 func quoteRune(r rune) string { return regexp.QuoteMeta(string(r)) }
